@@ -448,6 +448,15 @@ def run(ctx):
                                                  np.array(net.adjacency).tolist()), n))
             ctx.count("random-walk-correspondence")
             rw_splits = 0
+        # round 5: the per-component wrapper of the random-walk betweennesses on DISCONNECTED
+        # networks (Model/NsiComp.lean): component lists, sub-networks, copy-back, exact
+        do_comp = (not directed) and (not all_reach) and 3 <= n <= (7 if quick else 8)
+        if do_comp:
+            reqs.append(request("comp", net, Wroot, g0, g1))
+            meta.append(("comp", gi, None, None, (base_impl, net.node_weights.copy(), scaled,
+                                                   components_of(net)), n))
+            ctx.count("per-component-correspondence")
+            comp_splits = 0
         # round 5: nsi_eigenvector_centrality -- the vector the implementation returns goes
         # through the exact model (Model/NsiEig.lean): matrix-vector product, eigen-residual,
         # normalisation, positivity and connectivity (the hypotheses of
@@ -512,6 +521,15 @@ def run(ctx):
                                         extra=f"{RW_TERMS} {v} {enc_rat(p)} "))
                     meta.append(("rwsplit", gi, v, p, len(reqs) - 2, n + 1))
                     ctx.count("random-walk-correspondence-on-split")
+                if do_comp and comp_splits < 2:
+                    comp_splits += 1
+                    reqs.append(request("comp", sp, sWroot, sg0, sg1))
+                    meta.append(("comp", gi, v, p, (sp_impl, sp.node_weights.copy(), scaled,
+                                                     components_of(sp)), n + 1))
+                    reqs.append(request("compsplit", net, Wroot, g0, g1,
+                                        extra=f"{v} {enc_rat(p)} "))
+                    meta.append(("compsplit", gi, v, p, len(reqs) - 2, n + 1))
+                    ctx.count("per-component-correspondence-on-split")
                 if do_eig and eig_splits < (1 if quick else 2):
                     # (a) the model's own split with the pulled-back vector: every output is the
                     # exact pull-back of the output on the original (`eig_pullback`);
@@ -639,10 +657,22 @@ def run(ctx):
     bad_split, bad_eval, bad_betw, nvals, nbetw = [], [], [], 0, 0
     bad_rw, nrw = [], 0
     bad_eig, neig, eig_stats = [], 0, {"resid": 0.0}
+    bad_comp, ncomp = [], 0
     for ans, (kind, gi, v, p, impl, n) in zip(model, meta):
         if kind == "rw":
             nrw += 1
             bad_rw += check_rw(ctx, ans, impl, n, f"graph#{gi} split={v},{p}")
+            continue
+        if kind == "comp":
+            ncomp += 1
+            bad_comp += check_comp(ctx, ans, impl, n, f"graph#{gi} split={v},{p}")
+            continue
+        if kind == "compsplit":
+            ncomp += 1
+            if ans != model[impl]:
+                bad_comp.append(f"graph#{gi} split={v},{p}: per-component model on its own split "
+                                f"and on splitted_copy() disagree: {ans[:120]} / "
+                                f"{model[impl][:120]}")
             continue
         if kind == "eig":
             neig += 1
@@ -730,8 +760,57 @@ def run(ctx):
                    f"model matrix-vector product == the library's sparse product; on the model's "
                    f"own split every output is the exact pull-back ({neig} requests)",
                    "correspondence", not bad_eig, "\n".join(bad_eig[:6]))
+    ctx.obligation(f"correspondence: per-component wrapper of nsi_newman_betweenness (both "
+                   f"add_local_ends) and nsi_arenas_betweenness (4 argument patterns) on "
+                   f"DISCONNECTED networks -- model of connected_components / subgraph / "
+                   f"node_weights[nodes] / copy-back with the exact kernels == implementation, on "
+                   f"graphs, split copies and the model's own split; component lists == igraph's; "
+                   f"the loop stores at every node its own component's value ({ncomp} requests)",
+                   "correspondence", not bad_comp, "\n".join(bad_comp[:6]))
     ctx.extra["values_compared"] = nvals
     extras(ctx)
+
+
+def components_of(net):
+    """igraph's component lists as the wrappers iterate over them"""
+    return ";".join(",".join(str(int(x)) for x in comp) or "-"
+                    for comp in net.graph.connected_components())
+
+
+def check_comp(ctx, ans, impl_pack, n, where):
+    """one `comp` answer of the driver against the implementation on a disconnected network"""
+    impl, w, scaled, comps = impl_pack
+    mb = parse_betw(ans)
+    bad = []
+    if mb.get("comps") != comps:
+        bad.append(f"{where}: components model={mb.get('comps')} igraph={comps}")
+    if mb.get("pernode") != "1":
+        bad.append(f"{where}: the component loop does not store every node's own component value")
+    pairs = [("newman", "nsi_newman_betweenness_comp@oracle"),
+             ("newman_ends", "nsi_newman_betweenness_ends@oracle"),
+             ("arenas", "nsi_arenas_betweenness_comp@oracle"),
+             ("arenas_incl", "nsi_arenas_betweenness_incl_comp@oracle"),
+             ("arenas_twin", "nsi_arenas_betweenness_twin_comp@oracle"),
+             ("arenas_incl_twin", "nsi_arenas_betweenness_incl_twin_comp@oracle")]
+    for key, name in pairs:
+        iv = impl.get(name)
+        if iv is None:
+            continue
+        mvs = mb.get(key, "singular")
+        if isinstance(iv, tuple):
+            if mvs != "singular":
+                bad.append(f"{where} {name}: implementation raises {iv[1]}, model={mvs[:80]}")
+            continue
+        mv = None if mvs == "singular" else ([] if mvs == "-" else
+                                             [Fraction(x) for x in mvs.split(",")])
+        if mv is None or len(mv) != len(iv):
+            bad.append(f"{where} {name}: model={mvs[:80]} impl={iv}")
+            continue
+        fl = vec_floor(iv, [float(x) for x in mv], scaled, name)
+        if not all(close(a, float(b), 1e-8, fl) for a, b in zip(iv, mv)):
+            bad.append(f"{where} {name}: impl={iv} model={[float(x) for x in mv]}")
+        ctx.count("per-component-values-compared", len(iv))
+    return bad
 
 
 def finite_vec(vals, n):
